@@ -1,22 +1,59 @@
 // Package jh holds the harness objects shared by the Joe scenarios (C03, C04, C06, C07, C17):
-// scripted recording MessageWriters and a recording, fault-injecting Replayer.
+// scripted recording MessageWriters, a recording fault-injecting Replayer, and the log of everything the
+// provider's goroutine did (JoeLog), from which the oracles reconstruct Joe's serialisation order.
 //
 // Discipline (DESIGN.md 2.1, state-key pruning): every record is written by exactly one thread and
-// derived only from what that thread observed through shim operations.
+// derived only from what that thread observed through shim operations. Writers and the Replayer are only
+// ever called on the provider's goroutine, so JoeLog is written by one thread.
 package jh
 
 import (
 	"errors"
 	"fmt"
+	"strings"
 
 	sse "github.com/tmaxmax/go-sse"
 	"github.com/tmaxmax/go-sse/vrt"
 )
 
+// Ev is one call made by the provider's goroutine.
+type Ev struct {
+	Kind string // "replay", "replay-end", "put", "send", "flush"
+	Sub  string // writer name (replay, send, flush)
+	Msg  string // message tag as given (put) / as sent incl. "#id" (send)
+	Out  string // put: tag of the returned message
+	Res  string // "ok", "err", "panic"
+}
+
+func (e Ev) String() string {
+	return fmt.Sprintf("%s(%s%s%s)=%s", e.Kind, e.Sub, e.Msg, map[bool]string{true: "->" + e.Out, false: ""}[e.Out != ""], e.Res)
+}
+
+// JoeLog is the sequence of calls the provider's goroutine made on the harness objects.
+type JoeLog struct{ E []Ev }
+
+func (l *JoeLog) add(e Ev) {
+	if l != nil {
+		l.E = append(l.E, e)
+	}
+}
+
+func (l *JoeLog) String() string {
+	if l == nil {
+		return ""
+	}
+	var ss []string
+	for _, e := range l.E {
+		ss = append(ss, e.String())
+	}
+	return strings.Join(ss, " ")
+}
+
 // Writer is a recording MessageWriter. All its methods run on the provider's goroutine.
 type Writer struct {
 	Name string
 	Ctx  *vrt.Ctx
+	JL   *JoeLog
 	// FailChoices: how many of the first Send/Flush calls may fail (each is an explorer choice).
 	FailChoices int
 	// CancelOnFail: a failing call may also cancel Ctx in the same step (what net/http does).
@@ -25,22 +62,23 @@ type Writer struct {
 	// also cancels Ctx in the same step. Scenarios use this to shard the fault space over processes.
 	FailAt     int
 	FailCancel bool
+	// Slow: Send and Flush contain a scheduling point (a client that takes time), so other threads run
+	// while the provider is inside the call.
+	Slow bool
 	// Returned is set (Poke) by the subscribing thread in the step in which Subscribe returned.
 	Returned *vrt.Shared
 
 	Calls    int
-	Events   []string // "S:<id>" for Send, "F" for Flush
+	Events   []string // "S:<tag>" for Send, "F" for Flush, "S!"/"F!" for failed calls
 	Sent     []string // message tags successfully sent
 	FirstErr error
-	Dirty    bool // a Send happened that no Flush followed yet
 }
 
-// Tag identifies a message in records: its first data line (harness messages carry a unique tag there) plus its ID.
+// Tag identifies a message in records: its first data line (harness messages carry a unique tag there) plus "#"+ID.
 func Tag(m *sse.Message) string {
-	s := m.String()
 	tag := ""
-	for _, line := range splitLines(s) {
-		if len(line) > 6 && line[:6] == "data: " {
+	for _, line := range strings.Split(m.String(), "\n") {
+		if strings.HasPrefix(line, "data: ") {
 			tag = line[6:]
 			break
 		}
@@ -51,21 +89,10 @@ func Tag(m *sse.Message) string {
 	return tag
 }
 
-func splitLines(s string) []string {
-	var out []string
-	cur := ""
-	for i := 0; i < len(s); i++ {
-		if s[i] == '\n' {
-			out = append(out, cur)
-			cur = ""
-		} else {
-			cur += string(s[i])
-		}
-	}
-	return out
-}
-
 func (w *Writer) fault(what string) error {
+	if w.Slow {
+		vrt.Yield(w.Name + "." + what + " in progress")
+	}
 	w.Calls++
 	if w.Returned != nil && w.Returned.Peek() != 0 {
 		vrt.Fail("%s.%s called after its Subscribe returned", w.Name, what)
@@ -99,24 +126,26 @@ func (w *Writer) fault(what string) error {
 }
 
 func (w *Writer) Send(m *sse.Message) error {
+	t := Tag(m)
 	if err := w.fault("Send"); err != nil {
 		w.Events = append(w.Events, "S!")
+		w.JL.add(Ev{Kind: "send", Sub: w.Name, Msg: t, Res: "err"})
 		return err
 	}
-	t := Tag(m)
 	w.Events = append(w.Events, "S:"+t)
 	w.Sent = append(w.Sent, t)
-	w.Dirty = true
+	w.JL.add(Ev{Kind: "send", Sub: w.Name, Msg: t, Res: "ok"})
 	return nil
 }
 
 func (w *Writer) Flush() error {
 	if err := w.fault("Flush"); err != nil {
 		w.Events = append(w.Events, "F!")
+		w.JL.add(Ev{Kind: "flush", Sub: w.Name, Res: "err"})
 		return err
 	}
 	w.Events = append(w.Events, "F")
-	w.Dirty = false
+	w.JL.add(Ev{Kind: "flush", Sub: w.Name, Res: "ok"})
 	return nil
 }
 
@@ -134,30 +163,38 @@ func Msg(tag string, id string) *sse.Message {
 var ErrReplay = errors.New("scripted replayer error")
 
 // Replayer records every call (it runs on the provider's goroutine, so the record is the provider's
-// serialisation order) and delegates to Inner if set. Faults are explorer choices.
+// serialisation order) and delegates to Inner if set. Faults are explorer choices or scripted.
 type Replayer struct {
 	Inner sse.Replayer
-	// PutFaults / ReplayFaults: number of leading calls whose outcome is a choice {ok, error, panic}.
+	JL    *JoeLog
+	// PutFaults / ReplayFaults: number of leading calls whose outcome is a choice {ok, error[, panic]}.
 	PutFaults, ReplayFaults int
 	AllowPanic              bool
-	// Deterministic scripts: the k-th Put / Replay call returns an error (1) or panics (2).
+	// Deterministic scripts: the k-th Put / Replay call returns an error (kind 0) or panics (kind 1).
 	PutFailAt, ReplayFailAt     int
 	PutFailKind, ReplayFailKind int
 
-	Log       []string // "P:<tag>" / "R:<writer>" in call order, with outcome suffix
+	// Reg, if set, receives the writer name whenever Replay is called (a buffered shim channel: the
+	// scenario can wait until Joe has taken a subscription into his loop).
+	Reg chan string
+
+	Log       []string // "P:<tag>" / "R:<writer>" in call order, with outcome marks
 	Puts      []string // tags in Put order (as returned, i.e. with IDs)
 	nPut, nRe int
 	Panicked  bool
 }
 
-func (r *Replayer) choice(nth, limit int, what string) int {
+func (r *Replayer) choice(isPut bool, nth int) int {
 	if r.Panicked {
 		vrt.Fail("replayer called after it panicked")
 	}
-	if what[9] == 'P' && r.PutFailAt == nth && nth > 0 {
-		return 1 + r.PutFailKind%2
-	}
-	if what[9] == 'R' && r.ReplayFailAt == nth && nth > 0 {
+	limit, what := r.ReplayFaults, "Replayer.Replay outcome"
+	if isPut {
+		limit, what = r.PutFaults, "Replayer.Put outcome"
+		if r.PutFailAt == nth && nth > 0 {
+			return 1 + r.PutFailKind%2
+		}
+	} else if r.ReplayFailAt == nth && nth > 0 {
 		return 1 + r.ReplayFailKind%2
 	}
 	if nth > limit {
@@ -171,13 +208,21 @@ func (r *Replayer) choice(nth, limit int, what string) int {
 }
 
 func (r *Replayer) Put(m *sse.Message, topics []string) (*sse.Message, error) {
+	t := Tag(m)
+	if t == "init#init" && r.Inner == nil {
+		// the pre-initialisation message is not part of the scenario: no fault, not counted
+		r.JL.add(Ev{Kind: "put", Msg: "init", Out: t, Res: "ok"})
+		return m, nil
+	}
 	r.nPut++
-	switch r.choice(r.nPut, r.PutFaults, "Replayer.Put outcome") {
+	switch r.choice(true, r.nPut) {
 	case 1:
-		r.Log = append(r.Log, "P!:"+Tag(m))
+		r.Log = append(r.Log, "P!:"+t)
+		r.JL.add(Ev{Kind: "put", Msg: t, Res: "err"})
 		return nil, ErrReplay
 	case 2:
-		r.Log = append(r.Log, "P!!:"+Tag(m))
+		r.Log = append(r.Log, "P!!:"+t)
+		r.JL.add(Ev{Kind: "put", Msg: t, Res: "panic"})
 		r.Panicked = true
 		panic("scripted replayer panic in Put")
 	}
@@ -186,12 +231,14 @@ func (r *Replayer) Put(m *sse.Message, topics []string) (*sse.Message, error) {
 		var err error
 		out, err = r.Inner.Put(m, topics)
 		if err != nil {
-			r.Log = append(r.Log, "Perr:"+Tag(m))
+			r.Log = append(r.Log, "Perr:"+t)
+			r.JL.add(Ev{Kind: "put", Msg: t, Res: "err"})
 			return nil, err
 		}
 	}
 	r.Log = append(r.Log, "P:"+Tag(out))
 	r.Puts = append(r.Puts, Tag(out))
+	r.JL.add(Ev{Kind: "put", Msg: t, Out: Tag(out), Res: "ok"})
 	return out, nil
 }
 
@@ -201,20 +248,32 @@ func (r *Replayer) Replay(sub sse.Subscription) error {
 	if w, ok := sub.Client.(*Writer); ok {
 		name = w.Name
 	}
-	switch r.choice(r.nRe, r.ReplayFaults, "Replayer.Replay outcome") {
+	if r.Reg != nil {
+		vrt.Send(r.Reg, name)
+	}
+	switch r.choice(false, r.nRe) {
 	case 1:
 		r.Log = append(r.Log, "R!:"+name)
+		r.JL.add(Ev{Kind: "replay", Sub: name, Res: "err"})
 		return ErrReplay
 	case 2:
 		r.Log = append(r.Log, "R!!:"+name)
+		r.JL.add(Ev{Kind: "replay", Sub: name, Res: "panic"})
 		r.Panicked = true
 		panic("scripted replayer panic in Replay")
 	}
 	r.Log = append(r.Log, "R:"+name)
+	r.JL.add(Ev{Kind: "replay", Sub: name, Msg: sub.LastEventID.String(), Res: "ok"})
+	var err error
 	if r.Inner != nil {
-		return r.Inner.Replay(sub)
+		err = r.Inner.Replay(sub)
 	}
-	return nil
+	res := "ok"
+	if err != nil {
+		res = "err"
+	}
+	r.JL.add(Ev{Kind: "replay-end", Sub: name, Res: res})
+	return err
 }
 
 // PreInit makes Joe start its goroutine from the calling thread, so that scenarios do not multiply
